@@ -170,6 +170,8 @@ def run_cut_loop(ex, stmt, st, key, lc, guard_fn, bind_fn, advance_fn, label):
             bnd(ex, head)
         for inv in invs:
             head.assume(_z(ex.spec(inv, head)))
+        for lem in (lc or {}).get('lemmas', []):
+            head.assume(_z(ex.spec(lem, head)))
         results = []
         more = set()
         g = guard_fn(head)
@@ -274,6 +276,7 @@ def _for_over(ex, stmt, st, it, key, lc):
         o = st.objs[it.oid]
         it = ex.new_obj(st, 'seq_iter', {'SEQ': it, 'K': 0, 'N': o['N'], 'AT': o['AT']})
     if isinstance(it, Rec) and it.kind in ('enum_iter', 'seq_iter'):
+        st.ghost['IT' + (key or 'x').replace('.', '_')] = it
         # iterator over an abstract sequence with ghost position K (0 <= K <= N)
         def guard(s):
             o = s.objs[it.oid]
@@ -294,6 +297,8 @@ def _for_over(ex, stmt, st, it, key, lc):
             pass
         lc2 = dict(lc or {})
         lc2['havoc_locs'] = [('fld', (it.oid, 'K'))]
+        g = 'IT' + (key or 'x').replace('.', '_')
+        lc2['inv'] = ['0 <= %s.K' % g, '%s.K <= %s.N' % (g, g)] + list(lc2.get('inv', []))
         return run_cut_loop(ex, stmt, st, key, lc2, guard, bind, advance, label)
     raise OutsideSubset('for over %r' % (it,))
 
@@ -331,6 +336,9 @@ def do_yield(ex, node, st):
     site = next((i for i, n in enumerate(ys) if n is node), -1)
     vals = ex.eval(node.value, st) if node.value is not None else [(st, None)]
     for s, v in vals:
+        yh = getattr(ex, 'on_yield_hook', None)
+        if yh:
+            yh(s, v)
         hook = getattr(c, 'on_yield', None) if c is not None else None
         for j, a in enumerate(getattr(c, 'yield_asserts', []) or []):
             ex.goal('%s/yield#%d.assert#%d' % (ex.fn, site, j), s, ex.spec(a, s, {'item': v}), {'assert': a})
